@@ -852,6 +852,16 @@ def sym_eq(a, b):
 
 def is_(a, b):
     """`a is b` for the transformed code."""
+    # an optional compared with None inside a speculative evaluation (no decisions there): a term
+    if CUR is not None and CUR.nofork:
+        if b is None and isinstance(a, SymOpt):
+            return wrap_bool(a.isnone)
+        if a is None and isinstance(b, SymOpt):
+            return wrap_bool(b.isnone)
+    if b is None and hasattr(type(a), "__symisnone__"):
+        return wrap_bool(a.__symisnone__())
+    if a is None and hasattr(type(b), "__symisnone__"):
+        return wrap_bool(b.__symisnone__())
     if isinstance(a, SymOpt):
         a = resolve(a)
     if isinstance(b, SymOpt):
